@@ -378,7 +378,7 @@ pub const DEF: PropertyDef = PropertyDef {
     id: "C01",
     rule: "model maps (regular via builder / raw constructor / decoding; nested indexes with url-only sections; Hermes maps) and decoded \
            non-canonical documents; ser -> decode compared through an observation function over public accessors (token sequence up to \
-           exact consecutive duplicates), ser∘dec∘ser compared byte for byte. Non-trivial = >= 3 tokens on >= 2 lines with one of \
+           exact consecutive duplicates), ser∘dec∘ser compared byte for byte. Also: living_object (one map - top level, inside an index section, or a Hermes map reached through DerefMut - written, then changed/used through setters, adjust_mappings, lookups, to_data_url, clone, a failing writer, and written again after every step), composed_operations (the map is the result of 2..4 producers), produced_maps (rewritten / flattened / adjusted maps incl. Hermes); index sections may share an offset. Non-trivial = >= 3 tokens on >= 2 lines with one of \
            {sourceless token, duplicate position, skipped line, special string, contents, ignore list, debug id, root, function map, \
            nested section}; documents: >= 3 tokens with segments out of column order or duplicate positions",
     assumptions: &[
